@@ -122,7 +122,7 @@ def run_jobshop_instance(r, jobs, deep):
                     wit = dict(wit0, rule=rule, local_search=True, max_iter=20, seed=seed)
                     try:
                         a = gcall(lambda: js.solve_job_shop([list(j) for j in jobs], rule=rule, max_iter=20, seed=seed), 5.0, 20_000_000)
-                        b = js.solve_job_shop([list(j) for j in jobs], rule=rule, max_iter=20, seed=seed)
+                        b = gcall(lambda: js.solve_job_shop([list(j) for j in jobs], rule=rule, max_iter=20, seed=seed), 5.0, 20_000_000)
                     except Exception as ex:  # noqa: BLE001
                         r["violations"].append(viol("solve_job_shop", "raised", wit, f"solve_job_shop({jobs}, rule={rule}, seed={seed}): {type(ex).__name__}: {ex}"))
                         continue
@@ -426,7 +426,7 @@ def _solve_chunk(params, lo, hi):
                     wit = dict(wit0, max_iter=40, seed=seed)
                     try:
                         res = gcall(lambda: vrp.solve_vrptw(customers[1:], vehicles, max_iter=40, seed=seed), 10.0, 100_000_000)
-                        res2 = vrp.solve_vrptw(customers[1:], vehicles, max_iter=40, seed=seed)
+                        res2 = gcall(lambda: vrp.solve_vrptw(customers[1:], vehicles, max_iter=40, seed=seed), 10.0, 100_000_000)
                     except Exception as ex:  # noqa: BLE001
                         r["violations"].append(viol("solve_vrptw", "raised", wit, f"solve_vrptw(instance {code}, seed={seed}): {type(ex).__name__}: {ex}"))
                         continue
